@@ -3,6 +3,7 @@ module verif/harness
 go 1.25
 
 require (
+	github.com/kaitai-io/kaitai_struct_go_runtime v0.11.0
 	github.com/thomasjungblut/go-sstables v0.0.0
 	google.golang.org/protobuf v1.36.11
 )
@@ -15,6 +16,7 @@ require (
 	github.com/steakknife/bloomfilter v0.0.0-20180922174646-6819c0d2a570 // indirect
 	github.com/steakknife/hamming v0.0.0-20180906055917-c99c65617cd3 // indirect
 	golang.org/x/exp v0.0.0-20240613232115-7f521ea00fb8 // indirect
+	golang.org/x/text v0.28.0 // indirect
 )
 
 replace github.com/thomasjungblut/go-sstables => /repo
